@@ -624,7 +624,7 @@ Lemma target_load s s' n h a bs : Good s -> Env s s' n -> get_ann s h = Some a -
                       /\ resolve_target s' tb = (s'', Some (a_kind a, lfs'))
                       /\ Forall2 (leaf_rel s s'') (a_leaves a) lfs' /\ Ext s' s''.
 Proof.
-  intros G E Ha Hn Hb. destruct (G_shape _ G h a Ha) as (Hk3 & Hk0 & Hkn).
+  intros G E Ha Hn Hb. destruct (G_shape _ G h a Ha) as (Hk3 & Hk0).
   destruct (leaves_load s n h a G Ha Hn (a_leaves a) bs s' E (fun _ H => H) Hb) as (sbs & lfs' & s'' & T1 & T2 & T3 & X).
   destruct (a_kind a) as [|k'] eqn:Ek.
   - destruct (Hk0 eq_refl) as (lf & El). rewrite El in *. cbn [map_opt] in Hb.
@@ -718,10 +718,9 @@ Proof.
   intros G E Hnth Hr.
   assert (get_ann s h = Some a) as Ha by (apply live_items_In; eapply nth_error_In; exact Hnth).
   assert (rank (anns s) h = n) as Hn by (apply (live_items_nth_inj (anns s) _ _ h a a (nth_live_items _ _ _ Ha) Hnth)).
-  destruct (G_shape _ G h a Ha) as (Hk3 & Hk0 & Hkn).
   destruct (G_aid _ G h a Ha) as (t & Et).
   destruct (G_fit _ G) as (Fa & _ & _). destruct (Fa h a Ha) as [_ Ff2].
-  destruct (pack_row_decodes s h a r (G_ok _ G) Ha Hkn Hr) as (bs & ds & Ebs & Eds & Erow).
+  destruct (pack_row_decodes s h a r (G_ok _ G) Ha Hr) as (bs & ds & Ebs & Eds & Erow).
   destruct (target_load s s' n h a bs G E Ha Hn Ebs) as (tb & lfs' & s1 & T1 & T2 & T3 & X).
   pose proof (Env_ext _ _ _ _ E X) as E1.
   destruct (data_load s s1 n G E1 (a_data a) ds Eds) as (dbs & D1 & D2).
@@ -1080,7 +1079,7 @@ Proof.
   intros Hid Hsets Hfit Hh Hk. unfold hyps_ok in Hh. apply andb_prop in Hh. destruct Hh as [Hok Hall].
   rewrite forallb_forall in Hall.
   unfold known_class in Hk. destruct (Known_C15_tempid s) eqn:K1; [discriminate|].
-  destruct (Known_C15_empty_complex s) eqn:K2; [discriminate|]. clear Hk.
+  clear Hk.
   unfold Known_C15_tempid in K1. apply orb_false_elim in K1. destruct K1 as [K1a K1x].
   assert (forall h a, get_ann s h = Some a -> exists t, a_id a = Some t) as Haid.
   { intros h a Ha. pose proof (existsb_false_forall _ _ K1a (h, a) (proj2 (live_items_In _ _ _) Ha)) as H. cbn [snd] in H.
@@ -1092,11 +1091,9 @@ Proof.
   constructor; try assumption.
   - intros h a Ha. pose proof (Hall (h, a) (proj2 (live_items_In _ _ _) Ha)) as H. cbn [fst snd] in H.
     apply andb_prop in H. destruct H as [Hs _]. unfold shape_b in Hs. apply andb_prop in Hs. destruct Hs as [H3 H0].
-    apply Nat.leb_le in H3. split; [exact H3|]. split.
-    + intro E0. rewrite E0 in H0. cbn in H0. apply Nat.eqb_eq in H0.
-      destruct (a_leaves a) as [|lf [|lf' l]]; try discriminate. exists lf. reflexivity.
-    + intros Hne Hnil. pose proof (existsb_false_forall _ _ K2 (h, a) (proj2 (live_items_In _ _ _) Ha)) as H. cbn [snd] in H.
-      rewrite Hnil in H. destruct (Nat.eqb_spec (a_kind a) 0); [contradiction|discriminate].
+    apply Nat.leb_le in H3. split; [exact H3|].
+    intro E0. rewrite E0 in H0. cbn in H0. apply Nat.eqb_eq in H0.
+    destruct (a_leaves a) as [|lf [|lf' l]]; try discriminate. exists lf. reflexivity.
   - intros h a lf Ha Hlf. pose proof (Hall (h, a) (proj2 (live_items_In _ _ _) Ha)) as H. cbn [fst snd] in H.
     apply andb_prop in H. destruct H as [_ Hb]. unfold back_b in Hb. rewrite forallb_forall in Hb. specialize (Hb lf Hlf).
     destruct lf; try exact I; apply Nat.ltb_lt in Hb; exact Hb.
